@@ -18,7 +18,7 @@ CONSTANTS Chains, Lite
 
 Trace == ndJsonDeserialize(IOEnv.TRACE_FILE)
 
-VARIABLES l, h, seq, cseq, commits, receipts, acks, out, bind, ubal, wbal, rbal, held, status, clients, marks, snaps, rot, badrel, sent, last
+VARIABLES l, h, seq, cseq, commits, receipts, acks, out, bind, ubal, wbal, rbal, held, status, clients, marks, snaps, rot, badrel, lim, sent, last
 
 MaxSeq == 1000
 MaxH == 1000
@@ -34,6 +34,8 @@ Funds == 1000
 Fees == {}
 SendFrom == {}
 WithRotate == TRUE
+LimitSets == {}
+LimWhere == {}
 INSTANCE XIBC
 
 tvars == <<l, vars>>
@@ -83,9 +85,11 @@ Bind(k) ==
   /\ marks'    = [c \in Chains |-> St(k, c).marks]
   /\ rot'      = [c \in Chains |-> [d \in Chains \ {c} |-> St(k, c).rot[d]]]      \* read from the real registry
   /\ badrel'   = [c \in Chains |-> { Tr(x) : x \in SetOf(St(k, c).badrel) }]     \* read from the acknowledgements really written
+  /\ lim'      = [c \in Chains |-> [x \in {"own"} \cup (Chains \ {c}) |-> LET r == St(k, c).lim[x] IN
+                     [on |-> r.on, cap |-> r.cap, max |-> r.max, min |-> r.min, used |-> r.used, stale |-> r.stale]]]   \* read from endpoint.limits
   /\ snaps'    = IF Trace[k].ev = "Reset"
                    THEN [c \in Chains |-> << [commits |-> B_commits(k, c, S), acks |-> B_acks(k, c)] >>]
-                 ELSE IF Trace[k].ev = "Commit"
+                 ELSE IF Trace[k].ev \in {"Commit", "Elapse"}
                    THEN [snaps EXCEPT ![Trace[k].chain] = Append(@, [commits |-> B_commits(k, Trace[k].chain, S), acks |-> B_acks(k, Trace[k].chain)])]
                  ELSE snaps
   /\ last' = [act |-> Trace[k].ev, res |-> Trace[k].res]
@@ -94,7 +98,7 @@ TInit ==
   /\ l = 0
   /\ h = [c \in Chains |-> 0] /\ seq = [c \in Chains |-> <<>>] /\ cseq = seq /\ commits = [c \in Chains |-> {}]
   /\ receipts = commits /\ acks = commits /\ out = seq /\ bind = seq /\ ubal = h /\ wbal = seq /\ rbal = h /\ held = h
-  /\ status = seq /\ clients = seq /\ marks = h /\ snaps = seq /\ rot = seq /\ badrel = commits /\ sent = {} /\ last = [act |-> "None", res |-> "ok"]
+  /\ status = seq /\ clients = seq /\ marks = h /\ snaps = seq /\ rot = seq /\ badrel = commits /\ lim = seq /\ sent = {} /\ last = [act |-> "None", res |-> "ok"]
 
 Step(k) == Trace[k].ev # "Reset"
 
@@ -105,7 +109,7 @@ ln(k) == Trace[k]
 ActChain(k) == ln(k).chain
 TripleOf(k) == Tr(ln(k).t)
 Unchanged(k) == /\ ln(k).dg.pre = ln(k).dg.post
-                /\ UNCHANGED <<h, seq, cseq, commits, receipts, acks, out, bind, ubal, wbal, rbal, held, status, clients, marks, rot, badrel>>
+                /\ UNCHANGED <<h, seq, cseq, commits, receipts, acks, out, bind, ubal, wbal, rbal, held, status, clients, marks, rot, badrel, lim>>
 
 (* C01 *)
 C01_RecvOnce(k) == (ln(k).ev = "Recv" /\ ln(k).res = "ok") =>
@@ -126,7 +130,7 @@ C02_RejectNoChange(k) == (ln(k).ev \in {"Recv", "Ack"} /\ ln(k).res # "ok") => U
 C03_ErrorAckLeavesNothing(k) ==
    (ln(k).ev = "Recv" /\ ln(k).res = "ok" /\ ln(k).wrote.code # 0) =>
         /\ ln(k).vdg.pre = ln(k).vdg.post
-        /\ UNCHANGED <<out, bind, ubal, wbal, rbal, held, marks, status, seq, cseq>>
+        /\ UNCHANGED <<out, bind, ubal, wbal, rbal, held, marks, status, seq, cseq, lim>>
 C03_SupplyFixed(k) == \A c \in Chains : St(k, c).supply = Funds /\ \A d \in Chains \ {c} : St(k, c).wsup[d] = St(k, c).wbal[d]
 
 (* C04 *)
@@ -283,6 +287,9 @@ C_Step(k) ==
     [] ln(k).ev = "NewClient" -> NewClientEff(c, a.counter, a.name)
     [] ln(k).ev = "SendFake" -> UNCHANGED stateVars /\ ln(k).res = "ok"
     [] ln(k).ev = "Rotate" -> RotateEff(c, a.counter) /\ ln(k).res = "ok"
+    [] ln(k).ev = "EnableLimit" -> EnableEff(c, a.token, <<a.cap, a.max, a.min>>) /\ ln(k).res = Res(EnableOK(c, a.token, <<a.cap, a.max, a.min>>))
+    [] ln(k).ev = "DisableLimit" -> DisableEff(c, a.token) /\ ln(k).res = Res(DisableOK(c, a.token))
+    [] ln(k).ev = "Elapse" -> ElapseEff(c)
     [] ln(k).ev = "Recv" ->
           /\ RecvEff(c, Base(k), a.alt, a.ph, (IF a.proof = "ok" THEN "ok" ELSE "bad"), a.signer)
           /\ ln(k).res = Res(RecvAccept(c, Decoded(Base(k), a.alt), a.ph, (IF a.proof = "ok" THEN "ok" ELSE "bad"), a.signer))
